@@ -39,7 +39,7 @@ ASSUMPTIONS = [
     "reference validity: full matching conserved by C02's flux_tolerance and reaching Tn by C03's tolerance; otherwise the oracle's exact solver "
     "(tags full-solver-nonconserved(D9), full-fallback, full-none, full-raised); a D9 input is never reported as a C15 violation of the full solver",
     "deflagration/hybrid tolerance: |dq/dv+| * (dv+_full + dv+_template) + 1e3*atol*|dq/dlnT| (hybr on the temperatures, as C02) + 64 eps |q|; "
-    "dv+ = 4*(atol + rtol*v+) [brentq] + E/|dTn/dv+| with E = 30*rtol*Tn (full: RK45 at rtol + brentq on Tn, as C03) or 3*rtol*Tn (template: RK45 at rtol/10)",
+    "dv+ = 8*(atol + rtol*v+) [brentq, same factor as C02] + E/|dTn/dv+| with E = 30*rtol*Tn (full: RK45 at rtol + brentq on Tn, as C03) or 3*rtol*Tn (template: RK45 at rtol/10)",
     "detonation tolerance: brentq on T- in the full solver 4*(atol+rtol*T-) times |dv-/dT-| + rounding of the template's closed form 64 eps/sqrt(1-4cb^2v+^2/part^2)",
     "v_J: second-order in the T- error of the full solver's brentq (extremum of v+(T-)) + 64 eps x cancellation of p_s-p_b, e_s-e_b",
     "v_min: Hydrodynamics floors v_min at 1e-3 -> compared with max(1e-3, template.vMin); the full solver leaves p_b(0.01 Tn) behind the wall where the template "
@@ -81,7 +81,7 @@ def _dvp(tol, which, vp, Tn, dTn):
         e_fun = 3 * tol["rtol"] * Tn
     else:  # oracle's exact solver: brentq(xtol=1e-13, rtol=1e-12) on v+, DOP853 at rtol 1e-10
         return 1e-13 + 1e-12 * vp + 30e-10 * Tn / max(dTn, 1e-300)
-    return 4 * (tol["atol"] + tol["rtol"] * vp) + e_fun / max(dTn, 1e-300)
+    return 8 * (tol["atol"] + tol["rtol"] * vp) + e_fun / max(dTn, 1e-300)
 
 
 def _q_of(eos, vals):
